@@ -30,6 +30,7 @@ import (
 	"go/token"
 	"go/types"
 	"os"
+	"os/exec"
 	"path/filepath"
 	"sort"
 	"strconv"
@@ -119,7 +120,7 @@ func pure(x ast.Expr) bool {
 }
 
 var timeFuncs = map[string]string{"Now": "Now", "After": "After", "Sleep": "Sleep", "NewTimer": "NewTimer",
-	"AfterFunc": "AfterFunc", "Since": "Since", "Until": "Until"}
+	"AfterFunc": "AfterFunc", "Since": "Since", "Until": "Until", "NewTicker": "NewTicker"}
 var ctxFuncs = map[string]string{"WithCancel": "WithCancel", "WithTimeout": "WithTimeout", "WithDeadline": "WithDeadline"}
 
 func (r *rewriter) pre(c *astutil.Cursor) bool {
@@ -184,7 +185,7 @@ func (r *rewriter) post(c *astutil.Cursor) bool {
 			if to, ok := timeFuncs[n.Sel.Name]; ok {
 				r.usedRT = true
 				c.Replace(rtSel(to))
-			} else if n.Sel.Name == "Tick" || n.Sel.Name == "NewTicker" {
+			} else if n.Sel.Name == "Tick" {
 				r.errorf(n, "time.%s is not supported by the runtime", n.Sel.Name)
 			}
 		case "context":
@@ -385,6 +386,14 @@ func (r *rewriter) rewriteRange(n *ast.RangeStmt) ast.Stmt {
 	return nil
 }
 
+func goList(dir, pkg string) (string, error) {
+	cmd := exec.Command("go", "list", "-f", "{{.Dir}}", pkg)
+	cmd.Dir = dir
+	cmd.Env = append(os.Environ(), "GOFLAGS=-mod=mod", "GOPROXY=off", "GOSUMDB=off", "GOTOOLCHAIN=local", "GOWORK=off")
+	out, err := cmd.Output()
+	return strings.TrimSpace(string(out)), err
+}
+
 type overlay struct {
 	Replace map[string]string
 }
@@ -418,6 +427,10 @@ func main() {
 				ov.Replace[filepath.Join(*repoDir, "verifrt", sub, e.Name())] = filepath.Join(*rtDir, sub, e.Name())
 			}
 		}
+	}
+	// sno gets a reset hook (rt/snohook) as an additional file of its package
+	if out, err := goList(*workDir, "github.com/muyo/sno"); err == nil && out != "" {
+		ov.Replace[filepath.Join(out, "verif_hook.go")] = filepath.Join(*rtDir, "snohook", "verif_hook.go")
 	}
 	// load with the virtual package visible
 	loadOverlay := map[string][]byte{}
@@ -454,7 +467,11 @@ func main() {
 		}
 		for i, f := range p.Syntax {
 			path := p.CompiledGoFiles[i]
-			src, err := os.ReadFile(path)
+			readFrom := path
+			if real, ok := ov.Replace[path]; ok {
+				readFrom = real // a file that exists only in the overlay
+			}
+			src, err := os.ReadFile(readFrom)
 			if err != nil {
 				fatal("%v", err)
 			}
@@ -510,6 +527,11 @@ func main() {
 func emit(fset *token.FileSet, f *ast.File, src []byte, path string, usedRT bool) []byte {
 	var buf bytes.Buffer
 	pkgOff := fset.Position(f.Package).Offset
+	if !strings.HasPrefix(path, *repoDir+"/") && !strings.HasPrefix(path, *workDir+"/") && !bytes.Contains(src[:pkgOff], []byte("//go:build")) {
+		// third-party module (sno declares go 1.14): the rewritten file uses generic runtime
+		// functions, so it selects a newer language version for itself
+		buf.WriteString("//go:build go1.18\n\n")
+	}
 	buf.Write(src[:pkgOff])
 	fmt.Fprintf(&buf, "package %s\n\n", f.Name.Name)
 	buf.WriteString("import (\n")
